@@ -1065,7 +1065,7 @@ func runCtor(c *Ctx) {
 				}
 			}
 		}
-		if !setSomewhere {
+		if bt, isB := mast.Field(i).Type().Underlying().(*types.Basic); !setSomewhere && isB && bt.Kind() == types.String {
 			c.OK(c.P.Pos(mast.Field(i).Pos()), construct, "no constructor assigns it: every tree starts with its zero value", true)
 			continue
 		}
